@@ -226,7 +226,8 @@ def value_job(args):
     rng = random.Random(f"{seed}:{lf_text}:{rf_text}")
     fails = []
     n = 0
-    for dims in itertools.product((0, 1, 2), repeat=order):
+    dim_choices = list(itertools.product((0, 1, 2), repeat=order)) if order < 3 else [(1, 2, 3), (3, 1, 2), (2, 2, 2), (2, 0, 3)]
+    for dims in dim_choices:
         space = list(itertools.product(*[range(d) for d in dims]))
         for _ in range(3):
             la = {c: float(rng.choice([1, 2, -3, 0.5])) for c in space if rng.random() < 0.5}
@@ -238,6 +239,9 @@ def value_job(args):
                 try:
                     res = {"+": left + right, "-": left - right, "*": left * right}[op]
                 except NoKernelFoundError:
+                    continue
+                except NotImplementedError as e:
+                    fails.append(f"KNOWN-F2 {lf_text} {op} {rf_text} dims {dims}: raised {e!r}" if order >= 3 else f"{lf_text} {op} {rf_text} dims {dims}: raised {e!r}")
                     continue
                 except Exception as e:
                     fails.append(f"{lf_text} {op} {rf_text} dims {dims}: raised {e!r}")
@@ -321,14 +325,33 @@ def check(argv):
         shape_res = pool.map(shape_job, jobs, chunksize=16)
         mm_res = pool.map(matmul_job, mm, chunksize=8)
         vjobs = [(o, a, b, seed) for o in range(0, 3) for a in all_format_texts(o) for b in all_format_texts(o)]
+        rng = random.Random(seed)
+        # order 3: a sample of format pairs that always contains the cyclic (non-involutive) orderings
+        f3 = all_format_texts(3)
+        cyc = [f for f in f3 if f[1::2] in ("120", "201")]
+        o3 = [(3, a, b, seed) for a in cyc[:: 2 if tier == "quick" else 1] for b in (rng.choice(f3), "d0d1d2")]
+        o3 += [(3, a, b, seed) for a, b in (rng.sample(f3, 2) for _ in range(16 if tier == "quick" else 200))]
         if tier == "quick":
-            rng = random.Random(seed)
             vjobs = [j for j in vjobs if j[0] < 2] + rng.sample([j for j in vjobs if j[0] == 2], 24)
-        val_res = pool.map(value_job, vjobs, chunksize=2)
+        vjobs += o3
+        val_res = None
         mvjobs = [(lo, ro, a, b, seed) for lo, ro, a, b in mm]
         if tier == "quick":
             mvjobs = mvjobs[::3]
-        mval_res = pool.map(matmul_value_job, mvjobs, chunksize=2)
+        mval_res = None
+    from pyvc.pool import robust_map
+
+    def _unwrap(res, jobs, what):
+        out = []
+        for r, j in zip(res, jobs):
+            if isinstance(r, dict) and r.get("crashed"):
+                out.append((1, [f"{what} {j[:-1]}: {r['reason']} - an operator crashed the process instead of returning or raising"]))
+            else:
+                out.append(r)
+        return out
+
+    val_res = _unwrap(robust_map(value_job, vjobs), vjobs, "element-wise operators on formats")
+    mval_res = _unwrap(robust_map(matmul_value_job, mvjobs), mvjobs, "@ on formats")
     shown = 0
     for lst in shape_res + mm_res:
         for oid, bad in lst:
@@ -339,6 +362,9 @@ def check(argv):
     evals = 0
     for n, fails in val_res + mval_res:
         evals += n
+        if any(f.startswith("KNOWN-F2") for f in fails) and report.known_finding("F2"):
+            report.hit_known("F2", report.known_finding("F2")["what"])
+        fails = [f for f in fails if not (f.startswith("KNOWN-F2") and report.known_finding("F2"))]
         for f in fails[:1]:
             if shown < 8:
                 shown += 1
@@ -346,7 +372,7 @@ def check(argv):
     report.functions += ["tensora.tensor.evaluate_binary_operator", "tensora.tensor.evaluate_matrix_multiplication_operator"]
     report.extra["proved_per_shape"] = dict(bound=f"every operand format pair of orders 0..{max_order} (sampled above 600 pairs per order), every @ format pair of orders 1..2",
                                             note="the synthesised text and format depend only on order/modes/ordering, so each verdict holds for all dimensions and contents")
-    report.bounded.append(dict(engine="native operator calls decoded with to_dok against numpy dense arithmetic", bound="orders 0..2, dimensions in {0,1,2}^n, random sparsity patterns, scalars on either side; @ for every format pair of orders 1..2 (quick: every third)",
+    report.bounded.append(dict(engine="native operator calls decoded with to_dok against numpy dense arithmetic", bound="orders 0..2 with dimensions in {0,1,2}^n, order 3 with distinct dimensions for a sample of format pairs that contains every cyclic ordering, random sparsity patterns, scalars on either side; @ for every format pair of orders 1..2 (quick: every third)",
                                evaluations=evals, distinct_nontrivial=evals, rule="one evaluation = one operator application compared with dense arithmetic", seconds=round(time.time() - t0, 1)))
     report.samples = [dict(obligation=lst[0][0]) for lst in shape_res[:: max(1, len(shape_res) // 5)] if lst]
     report.assumptions = ["value correctness of the synthesised assignment is C01's contract of evaluate; here it is only sampled", "numpy dense arithmetic is the oracle; values are small dyadic numbers so arithmetic is exact"]
